@@ -15,7 +15,7 @@ OPS = ['num', 'localindex', 'flatten']
 
 
 def cases(rng, tier):
-    n = 1500 if tier == 'quick' else 40000
+    n = 15000 if tier == 'quick' else 400000
     out = []
     for i in range(n):
         a = G.gen_array(rng, depth=rng.choice([2, 3, 3, 4]), canonical_too=False,
